@@ -23,7 +23,7 @@ LAYERS = ['M1', 'M2', 'M3', 'metal4', 'M5']
 
 def plan(tier, seed):
     q = tier == 'quick'
-    return [{'n': 25 if q else 450} for _ in range(16)]
+    return [{'n': 120 if q else 3000} for _ in range(16)]
 
 
 def conclude(agg):
